@@ -461,9 +461,50 @@ type diffEnv struct {
 	steps    int
 	// coverage tuple hook
 	cover func(args []string, priorType string, outcome string)
-	// knownCrashSkip lets the generator avoid commands that would kill the process
 	noState bool // skip state comparison
 	obsDB   int
+	// additional connections (index 1..) with their own model sessions; index 0 is cn/sess
+	cns      []*wire.Conn
+	sessions []*model.Session
+	dbsSeen  map[int]bool        // databases that were ever selected or written to: all of them are dumped
+	prevs    map[int]*dbDump     // previous dump per database (M-inert)
+}
+
+// addConn opens another connection to the same emulator (its own session) and returns its index.
+func (d *diffEnv) addConn() (int, error) {
+	cn, err := d.emu.dial()
+	if err != nil {
+		return 0, err
+	}
+	cn.Timeout = 20 * time.Second
+	if d.cns == nil {
+		d.cns = []*wire.Conn{d.cn}
+		d.sessions = []*model.Session{d.sess}
+	}
+	d.cns = append(d.cns, cn)
+	d.sessions = append(d.sessions, model.NewSession())
+	return len(d.cns) - 1, nil
+}
+
+// reconnect replaces connection i by a fresh one (fresh session), e.g. after the SUT's and the model's
+// transaction state diverged.
+func (d *diffEnv) reconnect(i int) error {
+	cn, err := d.emu.dial()
+	if err != nil {
+		return err
+	}
+	cn.Timeout = 20 * time.Second
+	if d.cns == nil {
+		d.cns = []*wire.Conn{d.cn}
+		d.sessions = []*model.Session{d.sess}
+	}
+	d.cns[i].Close()
+	d.cns[i] = cn
+	d.sessions[i] = model.NewSession()
+	if i == 0 {
+		d.cn, d.sess = cn, d.sessions[0]
+	}
+	return nil
 }
 
 func newDiffEnv(r *verdict.Run, c *host.Child, universe []string) (*diffEnv, error) {
@@ -485,6 +526,11 @@ func newDiffEnv(r *verdict.Run, c *host.Child, universe []string) (*diffEnv, err
 }
 
 func (d *diffEnv) close() {
+	for i, c := range d.cns {
+		if i > 0 {
+			c.Close()
+		}
+	}
 	d.cn.Close()
 	d.obs.Close()
 	d.emu.close()
@@ -512,19 +558,26 @@ func priorTypeOf(m *model.Model, db int, args []string, now int64) string {
 
 // step sends one command, compares reply and state with the model.
 // Returns the reply and whether the environment is still usable.
-func (d *diffEnv) step(args []string) (resp.Value, bool) {
+func (d *diffEnv) step(args []string) (resp.Value, bool) { return d.stepOn(0, args) }
+
+// stepOn sends one command on connection ci.
+func (d *diffEnv) stepOn(ci int, args []string) (resp.Value, bool) {
 	if d.dead {
 		return resp.Value{}, false
+	}
+	cn, sess := d.cn, d.sess
+	if ci > 0 || d.cns != nil {
+		cn, sess = d.cns[ci], d.sessions[ci]
 	}
 	r := d.r
 	d.steps++
 	tag := cmdTag(args)
-	wasMulti := d.sess.InMulti
+	wasMulti := sess.InMulti
 	t0 := time.Now().UnixMilli()
-	got, err := d.cn.Do(args...)
+	got, err := cn.Do(args...)
 	t1 := time.Now().UnixMilli()
-	prior := priorTypeOf(d.m, d.sess.DB, args, t0)
-	exp, ambiguous := d.m.ApplyI(d.sess, args, t0, t1)
+	prior := priorTypeOf(d.m, sess.DB, args, t0)
+	exp, ambiguous := d.m.ApplyI(sess, args, t0, t1)
 	if err != nil {
 		d.dead = true
 		d.log = append(d.log, stepRecord{args, "ERROR: " + err.Error(), exp.String()})
@@ -543,11 +596,21 @@ func (d *diffEnv) step(args []string) (resp.Value, bool) {
 	if len(d.log) > 400 {
 		d.log = d.log[len(d.log)-400:]
 	}
-	if d.sess.Proto != d.cn.Proto && (d.sess.Proto == 2 || d.sess.Proto == 3) {
-		d.cn.Proto = d.sess.Proto
+	if sess.Proto != cn.Proto && (sess.Proto == 2 || sess.Proto == 3) {
+		cn.Proto = sess.Proto
+	}
+	if ci > 0 {
+		d.log[len(d.log)-1].Cmd = append([]string{fmt.Sprintf("[conn %d]", ci)}, args...)
 	}
 	diverged := false
 	stepSig := "" // a recognised defect of this step: its state divergences carry the same signature
+	if wasMulti && sess.InMulti && got.IsError() && exp.Err == "" && exp.Val.Text() == "QUEUED" && model.ArgumentError(args) {
+		// The emulator parses arguments when a command is queued, Redis only checks the arity and fails the command
+		// at EXEC. Rejecting a malformed command at queue time is accepted as long as EXEC then aborts (EXECABORT).
+		sess.RejectQueued()
+		r.Count("queue_time_argument_rejections", 1)
+		exp = model.AnyErr()
+	}
 	if ambiguous {
 		r.Count("ambiguous_time_steps", 1)
 	} else if why := model.Match(exp, got); why != "" {
@@ -555,6 +618,10 @@ func (d *diffEnv) step(args []string) (resp.Value, bool) {
 		sig := fmt.Sprintf("%s/%s/reply/%s/%s-vs-%s", d.monitor, tag, prior, exp.Class(), model.Class(got))
 		if s2 := refineReplySig(args, got); s2 != "" {
 			sig = "model/" + s2
+			stepSig = sig
+		}
+		if strings.EqualFold(args[0], "EXEC") && sess.LastAbort != "" && got.Kind == '*' && !got.Null {
+			sig = "model/WATCH/" + sess.LastAbort
 			stepSig = sig
 		}
 		r.Report(sig, fmt.Sprintf("%s (key was %s): %s", cmdString(args), prior, why), d.replay(map[string]any{"command": args, "expected": exp.String(), "got": got.String()}))
@@ -565,35 +632,71 @@ func (d *diffEnv) step(args []string) (resp.Value, bool) {
 	if d.noState {
 		return got, true
 	}
-	// state comparison through the observer connection
-	if d.sess.DB != d.obsDB {
-		d.obs.Do("SELECT", strconv.Itoa(d.sess.DB))
-		d.obsDB = d.sess.DB
+	// state comparison through the observer connection, for every database in use
+	if d.dbsSeen == nil {
+		d.dbsSeen = map[int]bool{0: true}
+		d.prevs = map[int]*dbDump{}
 	}
+	d.dbsSeen[sess.DB] = true
+	for db := range d.m.DB {
+		if len(d.m.DB[db]) > 0 {
+			d.dbsSeen[db] = true
+		}
+	}
+	name := strings.ToLower(args[0])
+	floatOK := strings.Contains(name, "float") || name == "exec"
+	resync := (exp.Unspec && !exp.ReadOnly) || ambiguous
+	inMultiQueueing := wasMulti || sess.InMulti
+	var dbs []int
+	for db := range d.dbsSeen {
+		dbs = append(dbs, db)
+	}
+	sort.Ints(dbs)
+	for _, db := range dbs {
+		if !d.compareDB(db, args, tag, prior, got, sess.DB, floatOK, resync, inMultiQueueing, &diverged, stepSig) {
+			return got, false
+		}
+	}
+	return got, true
+}
+
+// compareDB dumps one database and compares it with the model; false = environment unusable.
+func (d *diffEnv) compareDB(db int, args []string, tag, prior string, got resp.Value, cmdDB int, floatOK, resync, inMulti bool, divergedAny *bool, stepSig string) bool {
+	r := d.r
+	if db != d.obsDB {
+		d.obs.Do("SELECT", strconv.Itoa(db))
+		d.obsDB = db
+	}
+	diverged := false
 	d0 := time.Now().UnixMilli()
 	dump := dumpDB(d.obs, d.universe)
 	d1 := time.Now().UnixMilli()
 	if dump.Err != "" {
 		d.dead = true
 		r.Report(d.monitor+"/"+tag+"/dump-failed/"+prior, fmt.Sprintf("after %s the state could not be read: %s", cmdString(args), dump.Err), d.replay(nil))
-		return got, false
+		return false
 	}
-	db := d.sess.DB
-	floatOK := strings.Contains(strings.ToLower(args[0]), "float")
-	resync := (exp.Unspec && !exp.ReadOnly) || ambiguous
+	prev := d.prevs[db]
+	if db == 0 && prev == nil {
+		prev = d.prev
+	}
+	dbTag := ""
+	if db != cmdDB {
+		dbTag = "/other-db"
+	}
 	// M-inert: an error reply must leave the SUT's own state unchanged (not meaningful while queueing in MULTI,
 	// and EXEC's own reply is an array)
-	if got.IsError() && d.prev != nil && !wasMulti && !d.sess.InMulti {
-		for k, before := range d.prev.Keys {
+	if got.IsError() && prev != nil && !inMulti {
+		for k, before := range prev.Keys {
 			after := dump.Keys[k]
-			if after != nil && !sameDump(before, after, d.prev.T0, d.prev.T1, dump.T0, dump.T1) {
+			if after != nil && !sameDump(before, after, prev.T0, prev.T1, dump.T0, dump.T1) {
 				// natural expiry between (or during) the dumps is not a mutation
-				if before.PTTL >= 0 && before.PTTL < (dump.T1-d.prev.T0)+1000 {
+				if before.PTTL >= 0 && before.PTTL < (dump.T1-prev.T0)+1000 {
 					continue
 				}
 				diverged = true
-				r.Report(fmt.Sprintf("inert/%s/%s/changed-on-error", tag, prior),
-					fmt.Sprintf("%s failed with %s but key %q changed: before %s, after %s", cmdString(args), got, k, before, after), d.replay(nil))
+				r.Report(fmt.Sprintf("inert/%s/%s/changed-on-error%s", tag, prior, dbTag),
+					fmt.Sprintf("%s failed with %s but key %q (db %d) changed: before %s, after %s", cmdString(args), got, k, db, before, after), d.replay(nil))
 			}
 		}
 	}
@@ -626,7 +729,7 @@ func (d *diffEnv) step(args []string) (resp.Value, bool) {
 			if kd == nil {
 				if o != nil {
 					diverged = true
-					r.Report(fmt.Sprintf("%s/%s/state/%s/not-listed", d.monitor, tag, prior), fmt.Sprintf("after %s the model holds %q = %s but the SUT neither lists nor reports it", cmdString(args), k, objString(o, d1)), d.replay(nil))
+					r.Report(fmt.Sprintf("%s/%s/state/%s/not-listed%s", d.monitor, tag, prior, dbTag), fmt.Sprintf("after %s the model holds %q = %s in db %d but the SUT neither lists nor reports it", cmdString(args), k, objString(o, d1), db), d.replay(nil))
 				}
 				continue
 			}
@@ -636,7 +739,7 @@ func (d *diffEnv) step(args []string) (resp.Value, bool) {
 				if k != fk {
 					role = "/other-key"
 				}
-				sig := fmt.Sprintf("%s/%s/state/%s/%s%s", d.monitor, tag, prior, cls, role)
+				sig := fmt.Sprintf("%s/%s/state/%s/%s%s%s", d.monitor, tag, prior, cls, role, dbTag)
 				if s2 := refineStateSig(args, cls, o, kd, d0, d1); s2 != "" {
 					sig = "model/" + s2
 				}
@@ -644,7 +747,7 @@ func (d *diffEnv) step(args []string) (resp.Value, bool) {
 					sig = stepSig
 				}
 				r.Report(sig,
-					fmt.Sprintf("after %s (reply %s): key %q is %s, Redis semantics give %s", cmdString(args), got, k, kd, objString(o, d1)), d.replay(map[string]any{"command": args, "key": k}))
+					fmt.Sprintf("after %s (reply %s): key %q in db %d is %s, Redis semantics give %s", cmdString(args), got, k, db, kd, objString(o, d1)), d.replay(map[string]any{"command": args, "key": k, "db": db}))
 			}
 			// keyspace listing consistency (SUT-only invariants)
 			exists := kd.Type != "none"
@@ -658,7 +761,7 @@ func (d *diffEnv) step(args []string) (resp.Value, bool) {
 			r.Report("invariant/dbsize-vs-keys", fmt.Sprintf("after %s: DBSIZE=%d but KEYS * lists %d keys %v", cmdString(args), dump.DBSize, len(dump.Listed), keysOf(dump.Listed)), d.replay(nil))
 		}
 	}
-	if diverged || resync {
+	if diverged || resync || *divergedAny {
 		// continue from the SUT's state so that one divergence does not cascade
 		r.Count("resyncs", 1)
 		for k := range d.m.DB[db] {
@@ -670,8 +773,14 @@ func (d *diffEnv) step(args []string) (resp.Value, bool) {
 			resyncKey(d.m, db, k, kd, d0, d1)
 		}
 	}
-	d.prev = dump
-	return got, true
+	if diverged {
+		*divergedAny = true
+	}
+	d.prevs[db] = dump
+	if db == 0 {
+		d.prev = dump
+	}
+	return true
 }
 
 func keysOf(m map[string]bool) []string {
